@@ -876,15 +876,18 @@ Definition cs_prop (c2 : Z) (p2 : list Z) (items : list CharClass.item) : pr (cs
 Definition cs_posix (p1 p2 : list Z) (items : list CharClass.item) : pr (csyn * list Z) :=
   let '(ngp, p3) := if longer p2 1 && hd_is p2 94 then (true, tl p2) else (false, p2) in
   let '(nm, p4) := scan_word is_word_char p3 in
-  pdo items' <- (if negb so && useRE2 o then
-                   match posix_index nm with
-                   | Some k => POk (IPosix ngp k :: items)
-                   | None => PE PE_InvalidCharRange p4
-                   end
-                 else POk items) ;
+  (* since /repo fde9056 the name is looked up only once ":]" has been seen *)
   if longer p4 1 && hd_is p4 58 && nth_is 1 p4 93 then
-    (if useRE2 o then cs_next (skipn 2 p4) chprev inrange items' sub else cs_generic 91 false (skipn 2 p4) items')
-  else cs_generic 91 false p1 items'.
+    (if useRE2 o then
+       pdo items' <- (if negb so then
+                        match posix_index nm with
+                        | Some k => POk (IPosix ngp k :: items)
+                        | None => PE PE_InvalidCharRange (skipn 2 p4)
+                        end
+                      else POk items) ;
+       cs_next (skipn 2 p4) chprev inrange items' sub
+     else cs_generic 91 false (skipn 2 p4) items)
+  else cs_generic 91 false p1 items.
 
 (* one turn of the loop (1707-1908) *)
 Definition cs_body (p : list Z) (items : list CharClass.item) : pr (csyn * list Z) :=
